@@ -171,9 +171,20 @@ func (e *Engine) explain(o *Obligation, dir string) {
 	}
 	for i, p := range probes {
 		s := p.term.String()
-		if len(s) > 160 {
-			s = s[:160] + "..."
+		if len(s) > explainWidth() {
+			s = s[:explainWidth()] + "..."
 		}
 		fmt.Printf("        [%s] %s\n", m[fmt.Sprintf("c%d", i)], s)
 	}
+}
+
+func explainWidth() int {
+	if v := os.Getenv("GOVC_EXPLAIN_WIDTH"); v != "" {
+		var n int
+		fmt.Sscanf(v, "%d", &n)
+		if n > 160 {
+			return n
+		}
+	}
+	return 160
 }
